@@ -48,7 +48,7 @@ func (k Keeper) RequestModuleService(
 		return sdkerrors.Wrap(types.ErrUnknownRequestContext, reqContextID.String())
 	}
 
-	_, totalPrices, _, err := k.FilterServiceProviders(
+	providers, totalPrices, _, err := k.FilterServiceProviders(
 		ctx,
 		requestContext.ServiceName,
 		requestContext.Providers,
@@ -58,6 +58,11 @@ func (k Keeper) RequestModuleService(
 	)
 	if err != nil {
 		return err
+	}
+
+	// the module's provider is served only through an available binding within the timeout and the service fee cap
+	if len(providers) == 0 {
+		return sdkerrors.Wrapf(types.ErrServiceBindingUnavailable, "module service %s", requestContext.ServiceName)
 	}
 
 	if err := k.DeductServiceFees(ctx, consumer, totalPrices); err != nil {
